@@ -248,8 +248,14 @@ def gen_world(tape, tier):
         vdf = frame(v_rows, v_cols)
     else:
         vdf = frame([(names[0], 1000, 1001, "A", "G", False, 0.5, 30.0, 15.0, 0.5)], v_cols[:10])
+    # one chromosome of baits, no zero-width rows (nothing for `target --split` to do when the
+    # average size is large: the "return the input" fast paths)
+    b1 = baits_df[(baits_df["chromosome"] == names[0]) & (baits_df["start"] != baits_df["end"])]
     world = {
         "varr": VA(vdf, {"sample_id": "S1"}),
+        # what load_het_snps returns when no record passes its filters: a table without rows
+        "varr_empty": VA(vdf.iloc[0:0].reset_index(drop=True), {"sample_id": "S1"}),
+        "baits_chr1": GA(b1.reset_index(drop=True), {"sample_id": "baits"}),
         "baits": GA(baits_df, {"sample_id": "baits"}),
         "access": GA(frame(access_rows, ["chromosome", "start", "end"]), {"sample_id": "access"}),
         "tbins": GA(tb[["chromosome", "start", "end", "gene"]].copy(), {"sample_id": "targets"}),
